@@ -114,6 +114,31 @@ def run(tier):
                 rep.finding("fidelity/registry", "a document of %d identity-handled tags was %s" % (len(rvals[i][1]), "rejected: " + a[:80] if a.startswith("err") else "read differently"),
                             {"kind": "read", "config": cfg, "opt": 8, "input_hex": C.hexs(rdocs[i]), "expected": e[:600], "observed": got[:600]})
 
+        # ---- the same for tags nobody handles: kept as tagged values without a registry (option 0) and with one (8),
+        # replaced by their operand when the caller asks for unknown tags to be unwrapped (10) - by the hundred, too
+        for opt in (0, 8, 10):
+            uvals, udocs = [], []
+            for n in (1, 50, 99, 100, 101, 120, 300):
+                for tag in ("unit/m", "foo", "a.b/c-d"):
+                    ints = [("int", i) for i in range(n)]
+                    uvals.append(("vec", ints if opt == 10 else [("tagged", tag, x) for x in ints]))
+                    udocs.append(b"[" + b" ".join(b"#" + tag.encode() + b" %d" % i for i in range(n)) + b"]")
+                    uvals.append(("vec", [("vec", ints if opt == 10 else [("tagged", tag, x) for x in ints]), ("int", 5)]))
+                    udocs.append(b"[[" + b" ".join(b"#" + tag.encode() + b" %d" % i for i in range(n)) + b"] 5]")
+            uimpl, umodel, udiffs, ucr, _ = K.correspond(cfg, K.read_lines(udocs, opt))
+            rep.count("unhandled-tag-renderings/%s/opt%d" % (cfg, opt), len(udocs))
+            for i in udiffs[:3]:
+                rep.broken_obligation("correspondence/registry-read", "model %r vs code %r" % ((umodel[i] or "")[:160], (uimpl[i] or "")[:160]), False)
+            for i, a in enumerate(uimpl):
+                if a is None:
+                    continue
+                e = "ok " + G.expected_dump(uvals[i], cfg)
+                got = K.strip_ranges(a.split(" calls=[")[0])
+                if got != e:
+                    found = True
+                    rep.finding("fidelity/unhandled-tags", "a flat document of unhandled tags (reader options %d) was %s" % (opt, "rejected: " + a[:80] if a.startswith("err") else "read differently"),
+                                {"kind": "read", "config": cfg, "opt": opt, "input_hex": C.hexs(udocs[i]), "expected": e[:600], "observed": got[:600]})
+
         # ---- grammar derivations
         grammars = [("edn_grammar.ebnf", cfg)]
         if cfg in ("clj", "both"):
